@@ -11,6 +11,7 @@ import (
 
 	"tinkverif/core"
 	"tinkverif/effects"
+	"tinkverif/guard"
 )
 
 func init() { Registry["C19"] = c19 }
@@ -61,6 +62,14 @@ func trackedKind(t types.Type) int {
 	case *types.Array:
 		if trackedKind(u.Elem()) != 0 {
 			return 2
+		}
+	case *types.Struct:
+		// option structs passed by value (jwt…PublicKeyOpts{Modulus: …}): the
+		// caller's byte slices travel in their fields
+		for i := 0; i < u.NumFields(); i++ {
+			if u.Field(i).Exported() && trackedKind(u.Field(i).Type()) != 0 {
+				return 3
+			}
 		}
 	case *types.Pointer:
 		if n := core.NamedOf(u.Elem()); n != nil && n.Obj().Pkg() != nil {
@@ -167,6 +176,13 @@ func c19(c *Ctx) {
 				continue
 			}
 			nTrackedParams++
+			if k == 3 {
+				// option struct by value: the summaries do not separate its byte-slice
+				// fields from the (immutable, legitimately shared) objects its other
+				// fields point to; decide on the function's own instructions
+				c19StructParam(c, f, i, addViol)
+				continue
+			}
 			key := fmt.Sprintf("C19.nowrite/%s/%s", fid, prm.Name())
 			if w, ok := s.WritesParam(i, true, k == 2); ok {
 				if why := c19Excepted(f, key, i); why != "" {
@@ -455,6 +471,80 @@ func calleeWithSameAlias(a *effects.Analysis, f *ssa.Function, j int) (*ssa.Func
 // c19Control is the positive example that must match on every run: an
 // internal helper known to write its argument (random.MustRand fills b) must
 // appear with that parameter in its write set; otherwise the engine is blind.
+// c19StructParam: parameter i of f is a struct passed by value with exported
+// byte-slice (or proto) fields. A byte-typed value derived from it must not be
+// stored anywhere but a local variable, handed to a callee that keeps or
+// returns it, appended to, or written through.
+func c19StructParam(c *Ctx, f *ssa.Function, i int, addViol func(rule, key, pos, detail, entry string)) {
+	p, r, a := c.P, c.R, c.Eff()
+	fid := core.FuncID(f)
+	prm := f.Params[i]
+	derived := func(v ssa.Value) bool {
+		if k := trackedKind(v.Type()); k != 1 && k != 2 {
+			return false
+		}
+		for _, pt := range a.PointsTo(f, v) {
+			if pt.Root.Kind == effects.RParam && pt.Root.Idx == i && pt.Fn == nil {
+				return true
+			}
+		}
+		return false
+	}
+	bad := false
+	for _, g := range withClosures(f) {
+		if g != f {
+			continue // closures see the parameter as a free variable (own summaries)
+		}
+		allInstrs(g, func(ins ssa.Instruction) {
+			switch x := ins.(type) {
+			case *ssa.Store:
+				if _, local := x.Addr.(*ssa.Alloc); local {
+					return
+				}
+				if derived(x.Val) {
+					bad = true
+					addViol("C19.noretain", fmt.Sprintf("C19.noretain/%s/store of %s", fid, effects.Describe(x.Val)), p.Pos(x.Pos()),
+						fmt.Sprintf("keeps a reference to a byte slice of the caller's %s (passed by value, slices shared): store of %s", prm.Name(), effects.Describe(x.Val)),
+						fmt.Sprintf("%s param %s", fid, prm.Name()))
+				}
+			case ssa.CallInstruction:
+				cc := x.Common()
+				var avals []ssa.Value
+				if cc.IsInvoke() {
+					avals = append(avals, cc.Value)
+				}
+				avals = append(avals, cc.Args...)
+				for idx, av := range avals {
+					if derived(av) && a.ArgEscapes(x, idx) {
+						bad = true
+						addViol("C19.noretain", fmt.Sprintf("C19.noretain/%s/%s handed to %s", fid, effects.Describe(av), guard.CalleeName(cc)), p.Pos(x.Pos()),
+							fmt.Sprintf("a byte slice of the caller's %s is handed to a callee that keeps or returns it: %s", prm.Name(), guard.CalleeName(cc)),
+							fmt.Sprintf("%s param %s", fid, prm.Name()))
+					}
+				}
+			}
+		})
+	}
+	key := fmt.Sprintf("C19.noretain/%s/%s", fid, prm.Name())
+	if !bad {
+		r.Ok("C19.noretain", key, p.FuncPos(f), "no byte-typed value derived from the by-value struct parameter is stored outside a local or handed to a retaining callee")
+	}
+	wkey := fmt.Sprintf("C19.nowrite/%s/%s", fid, prm.Name())
+	written := ""
+	allInstrs(f, func(ins ssa.Instruction) {
+		for _, w := range a.WritesAt(ins) {
+			if w.Root.Kind == effects.RParam && w.Root.Idx == i && w.Fn == nil && w.Root.Depth >= 1 && (w.T == "" || w.T == "byte" || w.T == "uint8") {
+				written = p.Pos(ins.Pos())
+			}
+		}
+	})
+	if written != "" {
+		addViol("C19.nowrite", fmt.Sprintf("C19.nowrite/%s/%s", fid, prm.Name()), written, "writes into memory reachable from the caller's "+prm.Name(), fid)
+	} else {
+		r.Ok("C19.nowrite", wkey, p.FuncPos(f), "no write to memory reachable from the by-value struct parameter")
+	}
+}
+
 func c19Control(c *Ctx) {
 	f := c.P.PkgFunc("internal/random", "MustRand")
 	if f == nil {
